@@ -46,6 +46,10 @@ AllNames(stack) == UNION { Names(stack[i].args) : i \in 1..Len(stack) }
 Merged(stack) == { <<k, InForce(stack, k)[1]>> : k \in AllNames(stack) }
 Push(stack, m, app) == Append(stack, [args |-> m, app |-> app])
 Pop(stack) == SubSeq(stack, 1, Len(stack) - 1)
+\* update_current_context(u): the innermost block's own arguments are overwritten / extended by u (outside any block
+\* that is the controller's initial context, and the change stays)
+Updated(m, u) == SelectSeq(m, LAMBDA pr : ~Has(u, pr[1])) \o u
+Update(stack, u) == [stack EXCEPT ![Len(stack)].args = Updated(@, u)]
 
 ----------------------------------------------------------------------------
 \* methods and calls
